@@ -26,12 +26,67 @@ def build_cli(ctx):
     return out
 
 
+def mc_diffpage(name, n, w, cap, skip, key):
+    tla = "---- MODULE %s ----\nEXTENDS DiffPage\ncKey == <<%s>>\n====\n" % (name, ", ".join(map(str, key)))
+    cfg = ("SPECIFICATION Spec\nCONSTANTS\n  N = %d\n  W = %d\n  Cap = %d\n  Skip = {%s}\n  Key <- cKey\n"
+           "INVARIANTS Bounded NoSendOnClosedChannel ClosedOnlyWhenDrained InFlightOnce PageIsTheFilteredSortedList "
+           "ScheduleIndependentWithoutTies\nPROPERTY Terminates\n" % (n, w, cap, ", ".join(map(str, skip))))
+    return {name + ".tla": tla, name + ".cfg": cfg}
+
+
+def diffpage_stage(ctx, quick):
+    """The goroutine pipeline of html.DiffPage (the library traversal behind `gedcom diff`): DiffPage.tla is model checked in every
+    interleaving; real runs are judged by DiffPageTrace (termination and no panic are property clauses, the rest is conformance)."""
+    for m in ("DiffPageOps", "DiffPage", "DiffPageTrace"):
+        ctx.sany(m)
+    shapes = [(4, 2, 1, [3], [2, 1, 2, 1]), (3, 3, 1, [], [1, 1, 1]), (4, 1, 2, [1, 4], [3, 2, 1, 1])]
+    if not quick:
+        shapes += [(5, 2, 2, [2], [2, 1, 2, 1, 3]), (4, 3, 1, [], [2, 2, 1, 1]), (5, 3, 1, [5], [1, 2, 1, 2, 1])]
+    for k, (n, w, cap, skip, key) in enumerate(shapes):
+        name = "MC_DiffPage_%d" % k
+        res = ctx.tlc(name, files=mc_diffpage(name, n, w, cap, skip, key), timeout=3000, deadlock=True)
+        if res["violated"]:
+            raise common.MachineryError("design step: %s violated on the report pipeline model (%s)" % (res["violated"], name))
+    cfgs = ctx.path("diffpage_cfgs.ndjson")
+    with open(cfgs, "w") as fh:
+        p = ctx.vh(["matching", "gen", str(120 if quick else 1500), "6"])
+        fh.write(p.stdout.decode())
+        p = ctx.vh(["matching", "gen", str(20 if quick else 200), "14"], env={"VERIF_SEED": str(ctx.seed + 1)})
+        fh.write(p.stdout.decode())
+    obs = ctx.path("diffpage_obs.ndjson")
+    ctx.vh(["matching", "diffpage", "4"], stdin_path=cfgs, stdout_path=obs, timeout=3000)
+    bad, total = common.validate_obs(ctx, "DiffPageTrace", "DiffPageTrace", "diffpage_obs.ndjson", obs, timeout=3000, chunk=20000)
+    drift_by = {}
+    for o in bad:
+        ex = o["spec_extras"]
+        if ex[0] == "model":
+            drift_by[ex[1]] = drift_by.get(ex[1], 0) + 1
+            continue
+        ctx.violation({"clause": ex[1], "command": "diff (library)", "message": (o["panic"] or "")[:100]},
+                      "%s: DiffPage.WriteHTMLTo show=%s sort=%s jobs=%s GOMAXPROCS=%s %s" % (ex[1], o["show"], o["sort"], o["jobs"], o["gomax"], o["panic"][:200]),
+                      {"cfg": o["cfg"], "show": o["show"], "sort": o["sort"], "jobs": o["jobs"], "gomax": o["gomax"], "timeout": o["timeout"], "panic": o["panic"]})
+    ties = 0
+    with open(obs) as fh:
+        for k, l in enumerate(fh):
+            o = json.loads(l)
+            kept = [it["key"] for it in o["items"] if not it["skip"]]
+            ties += len(kept) != len(set(kept))
+            if k == 5:
+                o.pop("cfg", None)
+                ctx.sample({"from": "recorded report run", "observation": o})
+    ctx.extra["diffpage_runs"] = total
+    ctx.extra["diffpage_runs_with_tied_keys"] = ties
+    ctx.extra["diffpage_drift_by_clause"] = drift_by
+    return total
+
+
 def run(ctx):
     quick = ctx.tier == "quick"
     ctx.prepare_spec()
     for m in ("CommandsOps", "Commands", "CommandsTrace"):
         ctx.sany(m)
     ctx.build_vh()
+    dp_total = diffpage_stage(ctx, quick)
     cli = build_cli(ctx)
     cases = ctx.path("cases.ndjson")
     n = [0]
@@ -88,6 +143,10 @@ def run(ctx):
         "the specification contributes the fault-combination space (TLC enumerates every set up to the bound; the order of application is "
         "shown irrelevant) and the classification of outcomes; the verdict on the code is an outcome-class observation",
     ]
+    ctx.assumptions.append("the goroutine pipeline of html.DiffPage (createJobs / workers / sortResults / caller) is the PlusCal model DiffPage.tla, checked by TLC "
+                           "in every interleaving (bounded channels, no send on a closed channel, nothing lost or duplicated in flight, page = sorted filter, "
+                           "termination under fairness); %d real runs (-show x -sort x Jobs x GOMAXPROCS) are judged by DiffPageTrace: termination and no "
+                           "panic are property clauses, the content and order of the page are conformance clauses (drift, not counted)" % dp_total)
     rule = ("TLC enumerates every set of up to %d of 32 structural faults on 2 base graphs; plus seeded sets of 3-8 faults and the full set; "
             "each file is run through 32 invocations of the real gedcom binary and CommandsTrace judges every process outcome (%d files, %d "
             "process runs)" % (2 if quick else 3, total, runs))
